@@ -88,8 +88,12 @@ Definition validate_basic (sh : sheader) : bool :=
   match sh_sig sh with SigEmpty => false | _ => true end &&
   addr_eqb (h_proposer (sh_hdr sh)) (sg_addr (sh_signer sh)) &&
   match sg_pub (sh_signer sh) with
-  | Some p => verify_header p (sh_hdr sh) (sh_sig sh)
-  | None => false     (* unreachable in Go: an absent key comes with an empty address, rejected above *)
+  | Some p =>
+      (* since the fix "bind the signer's address to the signer's public key": Signer.Address must be
+         KeyAddress(Signer.PubKey) *)
+      addr_eqb (sg_addr (sh_signer sh)) (key_address p) &&
+      verify_header p (sh_hdr sh) (sh_sig sh)
+  | None => false     (* Signer.PubKey == nil is rejected (ErrProposerAddressMismatch) *)
   end.
 
 (* types.Validate(header, data) — types/data.go:57-74 *)
